@@ -77,7 +77,7 @@ func (s *Script) TemplateValue() interface{} {
 	case 5:
 		return map[string]string{v: v}
 	case 6:
-		return &v
+		return &tplStringer{v}
 	case 7:
 		return []interface{}{v, 1, nil}
 	case 8:
